@@ -57,7 +57,11 @@ void count(int idx, uint64_t d) { if (idx >= 0 && idx < 16) shared().counters[id
 
 static int g_tick = 0;
 int tick() { return ++g_tick; }
-void reset_case_state() { g_tick = 0; g_trace_n = 0; }
+static long g_slots[64];
+long slot_add(int i, long d) { return g_slots[i & 63] += d; }
+long slot_get(int i) { return g_slots[i & 63]; }
+void slot_set(int i, long v) { g_slots[i & 63] = v; }
+void reset_case_state() { g_tick = 0; g_trace_n = 0; memset(g_slots, 0, sizeof g_slots); }
 
 [[noreturn]] void fail(const char *fmt, ...) {
     char msg[1000];
